@@ -21,7 +21,17 @@ Transcribed from the code as it is:
   (fs.rs:64-77), pipe (pipe.rs:36-51), to_direct_descriptor (fd.rs:124-134),
   to_file_descriptor (fd.rs:174-178);
 * the operation state machine is `Model/Op.lean` (`Op.poll`, `Op.update`,
-  `Op.dropFut`), used unchanged.
+  `Op.dropFut`), used unchanged;
+* what `poll_inner` does with a final error (op.rs:933-938: `fallback(target,
+  resources, args, err)`): the default `fallback` (op.rs:499-510, 596-607,
+  688-699 → `fallback(err)`, op.rs:992-1000: EINVAL becomes
+  `ErrorKind::Unsupported`) for open (fs.rs:47-83), socket, accept and
+  multishot accept; `ToDirectOp::fallback` / `ToFdOp::fallback`
+  (fd.rs:85-100, 180-195: the error unchanged for the descriptor kinds the
+  conversions are allowed on); `PipeOp::fallback` (pipe.rs:48-63): on EINVAL
+  (`IORING_OP_PIPE` needs Linux 6.16) a synchronous `pipe2(2)`, whose two
+  REGULAR descriptors are wrapped with `fd::Kind::File` whatever kind was
+  requested (`Sys.pollFb`); any other error unchanged.
 
 The kernel is the environment: it consumes published submissions in order
 (KC1), executes CLOSE requests when it consumes them, and answers an in-flight
@@ -30,8 +40,8 @@ operation with an error or with *fresh* descriptors (KC8, the guard
 (the harness calls `Ring::poll` right after posting), so the completion queue
 never holds anything between two steps.
 
-Ghost state: only `Desc.st` / `Desc.wraps` / `Sys.strays` / `Sys.closeLog`;
-they never influence behaviour.
+Ghost state: only `Desc.st` / `Desc.wraps` / `Desc.sync` / `Sys.strays` /
+`Sys.closeLog`; they never influence behaviour.
 -/
 import A10Verif.Model.Op
 
@@ -127,10 +137,17 @@ structure Desc where
   closes : Nat := 0
   /-- ghost: number of `AsyncFd`s created for it -/
   wraps : Nat := 0
+  /-- ghost: returned by the synchronous `pipe2(2)` of `PipeOp::fallback`
+  (pipe.rs:48-63), not by a completion -/
+  sync : Bool := false
   deriving Repr, DecidableEq
 
 /-- A descriptor the kernel just installed. -/
 def Desc.fresh (k : Kind) (st : DSt) (r : Nat) : Desc := { kind := k, raw := r, st := st }
+
+/-- The same with the ghost mark `sync` (`Desc.freshS false = Desc.fresh`). -/
+def Desc.freshS (sync : Bool) (k : Kind) (st : DSt) (r : Nat) : Desc :=
+  { kind := k, raw := r, st := st, sync := sync }
 
 /-- The kernel's table lookup: the *open* descriptor `idx` of table `k`. -/
 def findOpen : List Desc → Kind → Nat → Option Nat
@@ -369,9 +386,10 @@ def Sys.kpost (s : Sys) (i : Nat) (out : Outcome) (more : Bool) : Sys × List St
     let inflight := if more then s.inflight else s.inflight.erase i
     match out with
     | .err e =>
-      -- EINVAL takes the "kernel too old" fallbacks (a synchronous pipe2 for pipe): not modelled
-      -- an error always terminates a multishot request (no `F_MORE`)
-      if e = 0 ∨ e = 22 ∨ 4096 ≤ e ∨ more then (s, ["bad-op"]) else
+      -- an error always terminates a multishot request (no `F_MORE`); EINVAL (22, "kernel too
+      -- old") is stored like any other error: what it leads to is decided by the next poll
+      -- (`FOp.pipe2Due`, `Sys.pollFb`, `showErr`)
+      if e = 0 ∨ 4096 ≤ e ∨ more then (s, ["bad-op"]) else
       let (s, ok) := ({ s with inflight := inflight } : Sys).deliver i ⟨-(e : Int), flags⟩
       (s, [if ok then "posted err" else "panic"])
     | .ok raws =>
@@ -448,8 +466,36 @@ def showSqe (s : Sys) (i : Nat) (o : FOp) : String :=
       (match s.handles[o.on]? with | some h => kindOf h.word == .direct | none => false)
     s!"sqe op{i} {o.kind.opcode} alloc={if alloc then 1 else 0} fixed={if fixed then 1 else 0}"
 
-/-- `Future::poll` / `poll_next` of operation `i`. -/
-def Sys.poll (s : Sys) (i : Nat) : Sys × List String :=
+/-- `EINVAL` -/
+def EINVAL : Int := 22
+
+/-- The operation's `fallback` is the default one, `Err(fallback(err))` (op.rs:992-1000): EINVAL
+is reported as `io::ErrorKind::Unsupported`. open: fs.rs:47-83; socket, accept, multishot accept:
+no `fallback` of their own (net.rs:20-46, 706-790). Not so for the conversions (fd.rs:85-100,
+180-195: `Err(err)` for the kind of `AsyncFd` they may be called on), pipe (pipe.rs:48-63) and
+`CloseOp`, which the kernel model never answers with an errno other than EBADF. -/
+def OpKind.mapsEinval : OpKind → Bool
+  | .open | .socket | .accept | .maccept => true
+  | _ => false
+
+/-- How the error `e` of the result read by this poll reaches the caller. A multishot stream
+that is still `Running` returns it directly (`Res::from_err`, op.rs:858-861); everything read
+in `Done` goes through `fallback` (op.rs:933-938). -/
+def showErr (o : FOp) (e : Int) : String :=
+  let viaFallback : Bool := match o.op.status with | .running _ => false | _ => true
+  if e = EINVAL ∧ viaFallback = true ∧ o.kind.mapsEinval = true then "Unsupported" else toString e
+
+/-- The next poll of this future runs `PipeOp::fallback` with EINVAL, i.e. calls `pipe2(2)`:
+a live pipe future whose operation is `Done` with `-EINVAL` as the result to read
+(poll_inner op.rs:880-938 → pipe.rs:54-59). -/
+def FOp.pipe2Due (o : FOp) : Bool :=
+  o.kind == .pipe && o.op.futLive &&
+  (match o.op.status with
+   | .done r => (match r.next with | some (x, _) => x.res == -22 | none => false)
+   | _ => false)
+
+/-- `Future::poll` / `poll_next` of operation `i` (no synchronous system call involved). -/
+def Sys.pollCore (s : Sys) (i : Nat) : Sys × List String :=
   match s.ops[i]? with
   | none => (s, ["bad-op"])
   | some o =>
@@ -470,9 +516,50 @@ def Sys.poll (s : Sys) (i : Nat) : Sys × List String :=
       | .readyOk x =>
         let (s2, hs) := s1.wrap i (s.issueKind o) (valsOf o x)
         (s2, s!"ready ok {if hs.isEmpty then "-" else joinWith " " hs}" :: lines)
-      | .readyErr e => (s1, s!"ready err {e}" :: lines)
+      | .readyErr e => (s1, s!"ready err {showErr o e}" :: lines)
       | .readyNone => (s1, "ready none" :: lines)
       | .panic => (s1, "panic" :: lines)
+
+/-- `Future::poll` / `poll_next` of operation `i`. A poll that would call `pipe2(2)` needs the
+environment's answer: it is the step `Sys.pollFb`. -/
+def Sys.poll (s : Sys) (i : Nat) : Sys × List String :=
+  match s.ops[i]? with
+  | none => (s, ["bad-op"])
+  | some o => if o.pipe2Due then (s, ["bad-op"]) else s.pollCore i
+
+/-- What the synchronous `pipe2(2)` answers (the environment's move inside the poll). -/
+inductive Fb where
+  /-- the two descriptors it returns (`[read end, write end]`) -/
+  | ok (raws : List Nat)
+  | fail (errno : Nat)
+  deriving Repr, DecidableEq
+
+/-- The poll of pipe future `i` that reads `-EINVAL`: `poll_inner` marks the operation
+`Complete` and calls `PipeOp::fallback` (pipe.rs:48-63), which calls `pipe2(fds, flags |
+O_CLOEXEC)`. On failure the future resolves with that error and nothing exists. On success the
+kernel has installed two REGULAR descriptors (KC8: `Sys.kernelOk` for the regular table at the
+moment of the call) and `map_ok` wraps them with `(fds, fd::Kind::File)` — NOT with the requested
+kind `o.req`. Both happen inside the one call of `poll`, under no lock that matters here, so it
+is one step. -/
+def Sys.pollFb (s : Sys) (i : Nat) (fb : Fb) : Sys × List String :=
+  match s.ops[i]? with
+  | none => (s, ["bad-op"])
+  | some o =>
+    if !o.pipe2Due then (s, ["bad-op"]) else
+    match fb with
+    | .fail e =>
+      if e = 0 ∨ 4096 ≤ e then (s, ["bad-op"]) else
+      ((s.pollCore i).1, [s!"ready err {e}", s!"pipe2 err {e}"])
+    | .ok raws =>
+      if raws.length ≠ 2 then (s, ["bad-op"]) else
+      if !s.kernelOk .file raws then (s, ["bad-raw"]) else
+      -- the operation is consumed (`Complete`, resources moved out) …
+      let s1 := (s.pollCore i).1
+      -- … `pipe2` installs the descriptors and writes them into `fds` …
+      let s2 : Sys := { s1 with descs := s1.descs ++ raws.map (Desc.freshS true .file (.pending i)) }
+      -- … and `map_ok(sq, (fds, fd::Kind::File), ..)` wraps them.
+      let (s3, hs) := s2.wrap i .file raws
+      (s3, [s!"ready ok {joinWith " " hs}", s!"pipe2 {joinWith "," (raws.map toString)}"])
 
 /-- Drop of operation `i`'s future (`State::drop` + `drop_state`): results
 stored in the state are discarded with it; a `Close` future that was never
@@ -521,6 +608,8 @@ inductive Step where
   | std (which : Nat)
   | newOp (kind : OpKind) (req : Kind) (a : Nat)
   | poll (i : Nat)
+  /-- a poll during which `pipe2(2)` is called, with its answer -/
+  | pollFb (i : Nat) (fb : Fb)
   | dropOp (i : Nat)
   | dropH (a : Nat)
   | kpost (i : Nat) (out : Outcome) (more : Bool)
@@ -531,6 +620,7 @@ def Sys.step (s : Sys) : Step → Sys × List String
   | .std w => s.std w
   | .newOp k r a => s.newOp k r a
   | .poll i => s.poll i
+  | .pollFb i fb => s.pollFb i fb
   | .dropOp i => s.dropOp i
   | .dropH a => s.dropH a
   | .kpost i out more => s.kpost i out more
@@ -606,6 +696,14 @@ def stepLine (s : Sys) (toks : List String) : Sys × List String :=
     match parseNat i with
     | some i => s.step (.poll i)
     | none => (s, ["bad-op"])
+  | ["fds", "poll", i, "pipe2", raws] =>
+    match parseNat i, parseNatList raws with
+    | some i, some rs => s.step (.pollFb i (.ok rs))
+    | _, _ => (s, ["bad-op"])
+  | ["fds", "poll", i, "pipe2-err", e] =>
+    match parseNat i, parseNat e with
+    | some i, some e => s.step (.pollFb i (.fail e))
+    | _, _ => (s, ["bad-op"])
   | ["fds", "dropop", i] =>
     match parseNat i with
     | some i => s.step (.dropOp i)
